@@ -44,18 +44,42 @@ def run(chk):
         raise AnalysisError(f"C17: {len(conts)} redirect `continue` statements (1 confirmed)")
 
     # ---- strip ------------------------------------------------------------------------------------------------
-    oif = [i for i in ast.walk(red) if isinstance(i, ast.If) and "origin()" in norm.text(i.test, i) and isinstance(i.test, ast.Compare) and isinstance(i.test.ops[0], (ast.NotEq, ast.Eq))]
+    def _origin_parts(e):
+        """(base text, set of components) of one side of the comparison: `X.origin()` or a tuple of X.scheme / X.raw_host|host / X.port"""
+        if isinstance(e, ast.Call) and isinstance(e.func, ast.Attribute) and e.func.attr == "origin":
+            return norm.raw(e.func.value), {"scheme", "host", "netloc-port"}
+        if isinstance(e, ast.Name):
+            vals = [v for _d, v in norm.fn_defs(rq.node).defs.get(e.id, []) if v is not None]
+            if len(vals) == 1 and isinstance(vals[0], ast.Call) and isinstance(vals[0].func, ast.Attribute) and vals[0].func.attr == "origin":
+                return e.id, {"scheme", "host", "netloc-port"}
+        if isinstance(e, ast.Tuple) and e.elts and all(isinstance(x, ast.Attribute) for x in e.elts):
+            bases = {norm.raw(x.value) for x in e.elts}
+            if len(bases) == 1:
+                comps = {"host" if x.attr in ("raw_host", "host", "host_subcomponent") else x.attr for x in e.elts}
+                return bases.pop(), comps
+        return None, set()
+
+    oif = []
+    for i in ast.walk(red):
+        if isinstance(i, ast.If) and isinstance(i.test, ast.Compare) and len(i.test.ops) == 1 and isinstance(i.test.ops[0], (ast.NotEq, ast.Eq)):
+            lb, lc = _origin_parts(i.test.left)
+            rb, rc = _origin_parts(i.test.comparators[0])
+            if lb is not None and rb is not None and "url" in (lb, rb):
+                oif.append((i, lb, lc, rb, rc))
     if not oif:
         chk.violation("C17.strip", red, "if url.origin() != redirect_origin:", "origin comparison", "no origin comparison in the redirect branch: caller credentials follow the redirect to any origin")
     else:
-        o = oif[0]
+        o, lb, lc, rb, rc = oif[0]
         t = norm.text(o.test, o)
-        left, right = norm.raw(o.test.left), norm.raw(o.test.comparators[0])
-        full = M.match_text("url.origin() != $T.origin()", t) or M.match_text("$T.origin() != url.origin()", t)
-        if full is not None and isinstance(o.test.ops[0], ast.NotEq):
-            chk.ok("C17.strip", o, f"cross-origin test compares full origins (scheme, host, port): `{t}`")
+        left, right = lb, rb
+        want_c = {"scheme", "host", "port"}
+        if want_c <= lc and want_c <= rc and isinstance(o.test.ops[0], ast.NotEq) and lb != rb:
+            chk.ok("C17.strip", o, f"cross-origin test compares full origins (scheme, host, port) of `{lb}` and `{rb}`")
+        elif {"scheme", "host", "netloc-port"} <= lc and {"scheme", "host"} <= rc and isinstance(o.test.ops[0], ast.NotEq) and lb != rb:
+            chk.violation("C17.strip", o, norm.raw(o.test), "(url.scheme, url.raw_host, url.port) != (<target>.scheme, <target>.raw_host, <target>.port)",
+                          "the cross-origin test compares yarl origins, i.e. the netloc text: `http://a.test/` redirected to `http://a.test:80/next` (the same origin, default port spelled out) is taken for another origin and loses Authorization, Cookie and the per-request cookies for the rest of the chain")
         else:
-            chk.violation("C17.strip", o, norm.raw(o.test), "url.origin() != <redirect target>.origin()", "the cross-origin test does not compare full origins (e.g. host only: a port or scheme change keeps the credentials)")
+            chk.violation("C17.strip", o, norm.raw(o.test), "(url.scheme, url.raw_host, url.port) != (<target>.scheme, <target>.raw_host, <target>.port)", "the cross-origin test does not compare full origins (e.g. host only: a port or scheme change keeps the credentials)")
         body = " ; ".join(norm.raw(s) for s in o.body)
         missing = [h for h in SENSITIVE if f"headers.popall({h}, None)" not in body and f"headers.pop({h}, None)" not in body]
         if "cookies = None" not in body:
@@ -69,7 +93,7 @@ def run(chk):
         K.must_pass(chk, "C17.strip", rq, None, lambda n: n in onodes, "every path from the redirect status test to the next hop evaluates the origin comparison",
                     start_edges=[(r, "T") for r in rtest], targets=lambda n: n in conts, construct="continue (next hop)", missing="if url.origin() != redirect_origin")
         # the compared origin is that of the *final* target (after a scheme-less Location was joined)
-        rname = right if right != "url.origin()" else left
+        rname = right if right != "url" else left
         od = norm.fn_defs(rq.node).defs.get(rname, []) if rname.isidentifier() else []
         joins = [s for s in ast.walk(red) if isinstance(s, ast.Assign) and "url.join(" in norm.raw(s.value)]
         src = norm.raw(od[0][1]) if od and od[0][1] is not None else t
@@ -299,6 +323,17 @@ def run(chk):
     chk.expect_count("C17.release", nr, 5, "raise sites in the redirect branch")
 
 
+def _root_text(e) -> str:
+    """`r_url.replace(' ', '%20')` -> `r_url`: the object a chain of method calls / attribute reads starts from"""
+    while True:
+        if isinstance(e, ast.Call) and isinstance(e.func, ast.Attribute):
+            e = e.func.value
+        elif isinstance(e, ast.Attribute):
+            e = e.value
+        else:
+            return norm.raw(e)
+
+
 def hunt3_rules(chk, repo, rq, red):
     """Rules written after the third defect hunt (F200-F202)."""
     import re as _re
@@ -328,7 +363,7 @@ def hunt3_rules(chk, repo, rq, red):
     # ---- C17.entry: a Location that is taken as it is must fit in a request line -----------------------------------------------------------------------
     urls = [s_ for s_ in ast.walk(red) if isinstance(s_, ast.Assign) and isinstance(s_.value, ast.Call) and norm.raw(s_.value.func) == "URL" and any(k.arg == "encoded" for k in s_.value.keywords)]
     for u in urls:
-        src = norm.raw(u.value.args[0]) if u.value.args else ""
+        src = _root_text(u.value.args[0]) if u.value.args else ""
         tr = next((t for t in prog.enclosing(u, (ast.Try,)) if prog.in_body_of(u, t, "body") and any("ValueError" in PC.handler_types(h) for h in t.handlers)), None)
         gate = None
         for r_, _c in (K.raises_in(ast.Module(body=tr.body, type_ignores=[])) if tr is not None else []):
@@ -337,6 +372,44 @@ def hunt3_rules(chk, repo, rq, red):
             b = PC.has_lit(PC.pc(r_, stop=tr, raw=True), f"$R.search({src})", True)
             if b is not None:
                 gate = (r_, b["R"])
+        # (c) what yarl raises while the Location is taken apart is all caught here: ValueError, and IndexError for an authority with an
+        #     empty host behind a bracketed userinfo (`http://[::1]@/x`; raiser table of sa.effects, as for the request parser)
+        if tr is not None:
+            caught = {t_ for h in tr.handlers for t_ in PC.handler_types(h)}
+            need_x = [x for x in ("ValueError", "IndexError") if x not in caught and not ({"Exception", "LookupError"} & caught if x == "IndexError" else {"Exception"} & caught)]
+            if not need_x:
+                chk.ok("C17.entry", tr, "the guard around the Location catches ValueError and IndexError (both raised by yarl for malformed authorities)")
+            else:
+                chk.violation("C17.entry", tr, "except ValueError", "except (ValueError, IndexError)",
+                              f"yarl raises {', '.join(need_x)} for `Location: http://[::1]@/x` (brackets in the userinfo, empty host): it leaves session.get() as a bare exception instead of InvalidUrlRedirectClientError, the intermediate response is not closed")
+            # (d) the host is the one component yarl never quotes: it goes to the resolver and into the Host header as it is
+            hostgate = None
+            for r_, _c in K.raises_in(ast.Module(body=tr.body, type_ignores=[])):
+                cl_ = PC.pc(r_, stop=tr)
+                txt_ = norm.fmt_cnf(cl_)
+                if "raw_host" in txt_ and ".search(" in txt_ and "' ' in" in txt_ and not any(len(c_) == 1 and "_requote_redirect_url" in l.text for c_ in cl_ for l in c_):
+                    hostgate = r_
+            if hostgate is not None:
+                chk.ok("C17.entry", hostgate, "a Location whose host holds a control character or a blank is refused in both requote modes")
+            else:
+                chk.violation("C17.entry", u, K.short(u, 70), "if ' ' in host or <CTL pattern>.search(host): raise ValueError  (host = parsed URL's raw_host, both requote modes)",
+                              "yarl percent-encodes control characters everywhere except in the host: `Location: http://b\x7f.test/x` is resolved and connected to, and a bare ValueError leaves session.get() when the Host header is serialised (with requoting on, the default)")
+        # (e) SP delimits the request line: a verbatim Location never carries one into it (quoted, or refused)
+        if tr is not None and u is urls[0]:
+            sp = [st_ for st_ in ast.walk(ast.Module(body=tr.body, type_ignores=[])) if isinstance(st_, (ast.Assign, ast.Raise))
+                  and any(l.pos and l.text.startswith("' ' in ") and _root_text(ast.parse(l.text[7:], mode="eval").body) == src for c_ in PC.pc(st_, stop=tr, raw=True) for l in c_)]
+            spgate = False
+            try:
+                if gate is not None:
+                    rx_ = folder.eval(mod, gate[1])
+                    spgate = bool(_re.compile(rx_.pattern, rx_.flags).search("/a b"))
+            except (NotConst, AttributeError, TypeError):
+                spgate = False
+            if sp or spgate:
+                chk.ok("C17.entry", sp[0] if sp else gate[0], "a blank in a verbatim Location is percent-encoded (or refused) before the next request line is written")
+            else:
+                chk.violation("C17.entry", u, K.short(u, 70), f"if not self._requote_redirect_url and ' ' in {src}: URL({src}.replace(' ', '%20'), encoded=True)",
+                              "with requote_redirect_url=False `Location: /my file.txt` is written as `GET /my file.txt HTTP/1.1`: a four-token request line (a strict server answers 400, a lenient one sees another target or version)")
         if gate is None:
             chk.violation("C17.entry", u, K.short(u, 70), f"if not self._requote_redirect_url and <CTL pattern>.search({src}): raise ValueError",
                           "with requote_redirect_url=False the Location is used verbatim (encoded=True): a value with CR / LF / NUL passes URL() and fails only when the next hop's request line is written - ValueError out of session.get() instead of InvalidUrlRedirectClientError, with the intermediate response already released")
@@ -362,7 +435,7 @@ def hunt2_rules(chk, repo, rq, red):
     #     fail when the next hop serialises the URL)
     urls = [s for s in ast.walk(red) if isinstance(s, ast.Assign) and isinstance(s.value, ast.Call) and norm.raw(s.value.func) == "URL" and any(k.arg == "encoded" for k in s.value.keywords)]
     for u in urls:
-        src = norm.raw(u.value.args[0]) if u.value.args else ""
+        src = _root_text(u.value.args[0]) if u.value.args else ""
         tr = next((t for t in prog.enclosing(u, (ast.Try,)) if prog.in_body_of(u, t, "body") and any("ValueError" in PC.handler_types(h) for h in t.handlers)), None)
         enc = tr is not None and any(isinstance(c, ast.Call) and isinstance(c.func, ast.Attribute) and c.func.attr == "encode" and norm.raw(c.func.value) == src for st_ in tr.body for c in ast.walk(st_))
         if enc:
